@@ -186,6 +186,13 @@ func (p *poller) Poll(timeoutMs int) (n int, err error) {
 			continue
 		}
 
+		if event.Mask&(syscall.EPOLLERR|syscall.EPOLLHUP) != 0 {
+			// The kernel reports errors and hang-ups whatever we asked for, and not necessarily together with
+			// EPOLLIN/EPOLLOUT (e.g. the last writer of a pipe going away yields EPOLLHUP alone). Whoever waits on
+			// this descriptor must be woken up: its read/write will report the condition.
+			events |= slot.Events & (PollerReadEvent | PollerWriteEvent)
+		}
+
 		if events&slot.Events&PollerReadEvent == PollerReadEvent {
 			// TODO this errors should be reported
 			_ = p.DelRead(slot)
